@@ -50,6 +50,8 @@ Section Spec.
   Definition sp_rw_vec (n : Z) (f0 f_max L s xi b : K) : list (cpx K) :=
     push_loop cpx0 n (sp_rw_sample n f0 f_max L s xi b).
   Definition sp_coll_vec (n : Z) (outer inner : K) : list (cpx K) := const_vec cpx0 n (sp_coll_Z outer inner).
+  (** parallel plates: the sample value is a leaf (Airy functions); samples 1..n/2 of a zero vector *)
+  Definition sp_pp_vec (n : Z) (f0 f_max g : K) : list (cpx K) := pp_vec cpx0 n (l_PPs E n f0 f_max g).
 
   (** the factory's switches and the arguments it documents *)
   Definition sp_f0 (R_bend : K) : K := l_c E / (two * l_pi E * R_bend).
@@ -87,13 +89,13 @@ Section Spec.
 
   (** ... and with the documented closed-form models *)
   Definition sp_factory : Z -> K -> K -> K -> K -> bool -> K -> K -> K -> option (list (cpx K)) -> option (list (cpx K)) :=
-    sp_factory_with (l_PP E) (fun n f_rev f_max => sp_fs_vec n f_rev f_max)
+    sp_factory_with sp_pp_vec (fun n f_rev f_max => sp_fs_vec n f_rev f_max)
                     (fun n f0 f_max L s xi b => sp_rw_vec n f0 f_max L s xi b)
                     (fun n f_max outer inner => sp_coll_vec n outer inner).
 End Spec.
 
 Arguments sp_delta {K}. Arguments sp_fs_Z0 {K}. Arguments sp_fs_sample {K}. Arguments sp_rw_Z1 {K}.
 Arguments sp_rw_sample {K}. Arguments sp_rw_k {K}. Arguments sp_coll_Z {K}. Arguments sp_fs_vec {K}. Arguments sp_rw_vec {K}.
-Arguments sp_coll_vec {K}. Arguments sp_f0 {K}. Arguments sp_radius {K}. Arguments g_sel_csr {K}.
+Arguments sp_coll_vec {K}. Arguments sp_pp_vec {K}. Arguments sp_f0 {K}. Arguments sp_radius {K}. Arguments g_sel_csr {K}.
 Arguments g_sel_pp {K}. Arguments g_sel_fs {K}. Arguments g_sel_rw {K}. Arguments g_sel_coll {K}.
 Arguments g_any_selected {K}. Arguments g_parts {K}. Arguments sp_factory_with {K}. Arguments sp_factory {K}.
